@@ -653,6 +653,10 @@ example : ∀ k', Codec.decIsKey ⟨false, 1, -1⟩ k' = true → (4591870180066
 example : Codec.valueIs (.num "1152921504606846976") (.i64 1152921504606846976) = true := by decide
 example : ∀ w, Codec.Val.tag (.i64 7) = Codec.Val.tag w → Codec.valueIs (.num "7") w = true → Val.i64 7 = w :=
   fun w ht h' => C04_schema_value_exact (.num "7") _ w ht (by decide) h'
+-- the hypothesis of C04_schema_entries_count is met by a concrete accepted entry list (evaluated,
+-- a test: `checkEntries` goes through `Array.qsort`, which the kernel does not unfold)
+#guard (match Codec.checkEntries "A" [(1, 10)] [(1, 10)] 5 0 [.arr [.num "7", .num "1"]] [(.i64 7, 1)] with | .ok () => true | _ => false)
+#guard (match Codec.checkEntries "A" [(1, 10)] [(1, 10)] 5 0 [] [(.i64 7, 1)] with | .ok () => false | _ => true)
 -- -0.1
 example : Codec.decIsKey ⟨true, 1, -1⟩ (-4591870180066957722) = true := by decide
 
